@@ -385,6 +385,77 @@ def h_responder_mode(sit, conf_mode):
     return ['responder_mode', 'refused']
 
 
+def h_two_entries(order, sit):
+    """responder whose connection has TWO overlapping protect entries of different modes (A: tunnel, net <-> net, any protocol; B: transport, host <->
+    host, one TCP port), in either order; a CREATE_CHILD_SA request with arbitrary protocol / port ranges between the two hosts and USE_TRANSPORT_MODE
+    present or not: whatever is installed is allowed - selectors contained AND mode equal - by ONE entry"""
+    from symx import core
+    from . import world, c11
+    eng = core.engine()
+    m, ik, cfm = MODS['message'], MODS['ikesa'], MODS['configuration']
+    p = world.Pair(mode='transport')
+    eb = dict(p.confdict['bob']['protect'][0])
+    ea = dict(eb, index=7, mode='tunnel', ip_proto='any', my_subnet='192.168.0.0/24', peer_subnet='192.168.0.0/24')
+    ea.pop('peer_port', None); ea.pop('my_port', None)
+    p.confdict['bob']['protect'] = [ea, eb] if order == 'AB' else [eb, ea]
+    cf = cfm.Configuration([world.IP1, world.IP2], p.confdict)
+    req = p.to_state('A', 'NEW_CHILD_REQ_SENT' if sit == 'new' else 'REK_CHILD_REQ_SENT')
+    b = p.b
+    b.configuration = cf.get_ike_configuration(world.IP2, world.IP1)       # (the IKE_SA and its first CHILD_SA exist; the policy now has both entries)
+    real_req = m.Message.parse(bytes(req), crypto=b.peer_crypto)
+    with_notify = eng.sym_bool('use_transport_mode')
+    TS = m.TrafficSelector
+    proto = eng.sym_int('offer.proto', 0, 255)
+    ports = {}
+    for side in ('i', 'r'):
+        sp, ep = eng.sym_int(f'offer.ts{side}.sp', 0, 65535), eng.sym_int(f'offer.ts{side}.ep', 0, 65535)
+        eng.assume(sp <= ep)
+        ports[side] = (sp, ep)
+    tsi = TS(7, proto, ports['i'][0], ports['i'][1], world.IP1, world.IP1)
+    tsr = TS(7, proto, ports['r'][0], ports['r'][1], world.IP2, world.IP2)
+    enc = []
+    for x in real_req.encrypted_payloads:
+        if x.type == m.Payload.Type.NOTIFY and x.notification_type == m.PayloadNOTIFY.Type.USE_TRANSPORT_MODE:
+            continue
+        if x.type == m.Payload.Type.TSi:
+            x = m.PayloadTSi([tsi])
+        elif x.type == m.Payload.Type.TSr:
+            x = m.PayloadTSr([tsr])
+        enc.append(x)
+    if with_notify:
+        enc.append(m.PayloadNOTIFY(m.Proposal.Protocol.NONE, m.PayloadNOTIFY.Type.USE_TRANSPORT_MODE))
+    msg = m.Message(spi_i=b.spi_i, spi_r=b.spi_r, major=2, minor=0, exchange_type=36, is_response=False, can_use_higher_version=False,
+                    is_initiator=True, message_id=b.peer_msg_id, payloads=[], encrypted_payloads=enc)
+    msg.is_protected = True
+    n_log, n_kids = len(p.B.kernel.log), len(b.child_sas)
+    c11.MODS = MODS
+    c11.deliver_object(b, p.B, msg)
+    new = [x for x in p.B.kernel.log[n_log:] if x['op'] == 'NEWSA']
+    if not new and len(b.child_sas) == n_kids:
+        return ['two_entries', 'refused']
+    if len(b.child_sas) != n_kids + 1 and sit == 'new':
+        return {'class': ['two_entries'], 'violation': 'kernel SAs installed but no CHILD_SA tracked (or several)'}
+    ch = b.child_sas[-1]
+    mode_installed = {int(x['mode']) for x in new}
+    if len(mode_installed) != 1 or int(ch.mode) not in mode_installed:
+        return {'class': ['two_entries'], 'violation': 'the kernel SAs of one CHILD_SA differ in mode / from the tracked mode'}
+    mode = mode_installed.pop()
+
+    def inside(ts, pol):
+        A = lambda a: int(a) if not hasattr(a, '_ip') or isinstance(a._ip, int) else core.SymInt(a._ip) if not isinstance(a._ip, core.SymInt) else a._ip
+        return core.sym_and(core.sym_or(int(pol.ip_proto) == 0, ts.ip_proto == int(pol.ip_proto)), pol.start_port <= ts.start_port, ts.end_port <= pol.end_port,
+                            int(pol.start_addr) <= A(ts.start_addr), A(ts.end_addr) <= int(pol.end_addr))
+    # the responder's CHILD_SA keeps the peer's side in tsr and its own in tsi (see _process_create_child_sa_negotiation_req)
+    allowed = False
+    for e in b.configuration.protect:
+        both = core.sym_or(core.sym_and(inside(ch.tsi, e.my_ts), inside(ch.tsr, e.peer_ts)), core.sym_and(inside(ch.tsr, e.my_ts), inside(ch.tsi, e.peer_ts)))
+        allowed = core.sym_or(allowed, core.sym_and(int(e.mode) == mode, both))
+    eng.prove(allowed, f'{sit}, entries {order}: a CHILD_SA was installed in mode {mode} with selectors that no single protect entry of that mode contains')
+    if bool(with_notify) != (mode == 0):
+        return {'class': ['two_entries'], 'violation': f'{sit}: installed mode {mode} does not match the request (USE_TRANSPORT_MODE {bool(with_notify)})'}
+    return ['two_entries', 'installed']
+
+
 def build_instances(tier):
     inst = [Instance(f'network <-> selector IPv{v}', h_network, (v,), engine_kw={'max_ticks': 10 ** 7}) for v in (4, 6)]
     inst += [Instance(f'kernel selector bytes initiator={i}', h_kernel_wire, (i,), native=common.native_of(h_kernel_wire), engine_kw={'max_ticks': 10 ** 7}) for i in (True, False)]
@@ -392,6 +463,10 @@ def build_instances(tier):
         for cm in ('transport', 'tunnel'):
             inst.append(Instance(f'responder mode {sit} policy={cm}', h_responder_mode, (sit, cm), native=common.native_of(h_responder_mode),
                                  must_reach=[('installed', lambda o: o == ['responder_mode', 'installed']), ('refused', lambda o: o == ['responder_mode', 'refused'])]))
+    for order in ('AB', 'BA'):
+        for sit in ('new', 'rekey'):
+            inst.append(Instance(f'two overlapping entries {order} {sit}', h_two_entries, (order, sit), native=common.native_of(h_two_entries),
+                                 must_reach=[('installed', lambda o: o == ['two_entries', 'installed']), ('refused', lambda o: o == ['two_entries', 'refused'])]))
     inst += [Instance(f'kernel SAs initiator={i} {pr}', h_kernel, (i, pr), must_reach=[('ok', lambda o: o == ['kernel', 'ok'])])
             for i in (True, False) for pr in ('esp', 'ah')]
     inst += [Instance(f'is_subset types={a},{b}', h_subset, (a, b),
@@ -424,7 +499,7 @@ def replay_file(path):
     """native replay of a selector counterexample: recompute is_subset and brute-force the packet semantics on the
     boundary packets of both selectors"""
     global MODS
-    if json.load(open(path)).get('instance', '').startswith(('initiator response', 'kernel SAs', 'network <->', 'responder mode', 'kernel selector bytes')):
+    if json.load(open(path)).get('instance', '').startswith(('initiator response', 'kernel SAs', 'network <->', 'responder mode', 'kernel selector bytes', 'two overlapping')):
         return common.generic_replay_file(path, lambda: build_instances('thorough') + build_instances('quick'), _load_world_native)
     MODS = common.load_repo(shim=False)
     TS = MODS['message'].TrafficSelector
